@@ -523,12 +523,71 @@ type s1Cont struct {
 	PeerGood   int              `json:"peer_got_good"`
 	Delivered  []lab.S1Delivery `json:"delivered"`
 	FirstOnLine string          `json:"first_on_line"` // whose block crossed the line first: "equipment" | "host"
+	Multi      bool             `json:"multi"`    // both messages have two blocks; the contention hits between the peer's two blocks
+	WantGood   int              `json:"want_peer_good"`
+	WantLen    int              `json:"want_len"` // body length of the message the library must deliver
 	Fault      string           `json:"fault"`
 	trace      *s1Trace
 }
 
+// s1ContMulti: the library is the host (slave). The equipment peer is in the middle of a two-block message -- block 1
+// went over an idle line -- when the application sends a two-block message of its own: the library's ENQ collides with the
+// peer's ENQ for block 2, the library yields and takes block 2 inside its own send, then sends its two blocks. The peer's
+// message is delivered exactly once and whole, the library's message arrives whole.
+func s1ContMulti(passive bool) *s1Cont {
+	line := &s1Cont{T: "e4cont", IsEquip: false, Multi: true, WantGood: 2, Delivered: []lab.S1Delivery{}}
+	ses, err := newS1Session(passive, false, 0x0010, 2)
+	if err != nil {
+		line.Fault = err.Error()
+		return line
+	}
+	defer ses.close()
+	ses.cut.TakeDeliveries()
+	text := make([]byte, 300)
+	for i := range text {
+		text[i] = byte('a' + i%26)
+	}
+	body := append([]byte{0x42, 0x01, 0x2C}, text...)
+	line.WantLen = len(body)
+	b1 := peerkit.E4Block(0x0010, true, 7, 1, false, 1, false, 0x778, body[:244])
+	b2 := peerkit.E4Block(0x0010, true, 7, 1, false, 2, true, 0x778, body[244:])
+	if res := ses.peer.SendBlock(b1, peerkit.SendOpts{}); res != "ack" {
+		line.Fault = "first block of the peer's message was not accepted: " + res
+		return line
+	}
+	done := make(chan error, 1)
+	go func() {
+		_, err := ses.cut.Conn.SendDataMessage(context.Background(), 6, 11, false, secs2.A(string(text)))
+		done <- err
+	}()
+	if _, _, what := ses.peer.RecvBlock(2*time.Second, peerkit.RecvOpts{WrongGrant: peerkit.ENQ}); what != "wrong-grant" {
+		line.Fault = "no ENQ from the library: " + what
+		return line
+	}
+	if ses.peer.SendBlock(b2, peerkit.SendOpts{EnqSent: true}) == "ack" {
+		line.FirstOnLine = "equipment"
+	}
+	for k := 0; k < 2; k++ {
+		if _, good, what := ses.peer.RecvBlock(2*time.Second, peerkit.RecvOpts{}); what == "block" && good {
+			line.PeerGood++
+		}
+	}
+	select {
+	case err := <-done:
+		line.SendResult = "nil"
+		if err != nil {
+			line.SendResult = err.Error()
+		}
+	case <-time.After(3 * time.Second):
+		line.SendResult = "hung"
+	}
+	time.Sleep(5 * time.Millisecond)
+	line.Delivered = ses.cut.TakeDeliveries()
+	return line
+}
+
 func s1ContScenario(passive, equip bool) *s1Cont {
-	line := &s1Cont{T: "e4cont", IsEquip: equip, Delivered: []lab.S1Delivery{}}
+	line := &s1Cont{T: "e4cont", IsEquip: equip, WantGood: 1, WantLen: 6, Delivered: []lab.S1Delivery{}}
 	ses, err := newS1Session(passive, equip, 0x0010, 2)
 	if err != nil {
 		line.Fault = err.Error()
@@ -1320,6 +1379,7 @@ func runS1(args []string) int {
 		if c.trace != nil {
 			w.Emit(c.trace)
 		}
+		w.Emit(s1ContMulti(equip))
 	}
 	if has("wedge") {
 		for _, v := range []string{"none", "wrong-device", "skipped-block"} {
